@@ -5,7 +5,7 @@ META = {
     "explanation": "Ownership of the Popen object until the pid is reaped (RT10), no other reaper or waited-for child reachable from the "
                    "tracked region (SG8, call graph with RTA), pipe/list pairing of the SIGCHLD helper (SG6), reap loop until (0,0) "
                    "recording every pid (SG7, SGc), a bounded timeout on the blocking self-pipe wait so that a SIGCHLD delivered just before the syscall cannot be lost (SG9), attribution of a completion to the entry of exactly that pid (INF1), main-loop shape "
-                   "(EX8) and no op lost between queues (EX3, EX6, EX7, EX1); slot accounting cannot underflow (EX14, EX15: an IndexError from the pool would end the run with tasks unaccounted for).",
+                   "(EX8) and no op lost between queues (EX3, EX6, EX7, EX1); slot accounting cannot underflow (EX14, EX15: an IndexError from the pool would end the run with tasks unaccounted for). One lowering per task and one count per lowered task (W1, PL6–PL8): a task is reported exactly once.",
     "rules": ["RT10", "SG8", "SG6", "SG9", "SG7", "SGc", "INF1", "EX8", "EX3", "EX6", "EX7", "EX1", "EX14", "EX15", "W1(planner)", "PL6", "PL7", "PL8"],
     "assumptions": ["liveness proper (progress under every batching of SIGCHLD) is argued from SG6/SG7/EX6–EX8, not decided",
                     "a grandchild keeping the tee pipe open delays finish() — run-time behaviour"],
